@@ -594,8 +594,9 @@ class CSVWriter extends rbql.RBQLOutputWriter {
                 this.null_in_output = true;
                 out_fields[i] = '';
             } else if (Array.isArray(out_fields[i])) {
-                this.normalize_fields(out_fields[i]);
-                out_fields[i] = out_fields[i].join(this.sub_array_delim);
+                let sub_fields = out_fields[i].slice(); // Copy: the nested array may be shared with a row of the input table
+                this.normalize_fields(sub_fields);
+                out_fields[i] = sub_fields.join(this.sub_array_delim);
             }
         }
     };
